@@ -303,6 +303,22 @@ func rulesC02(c *Ctx) {
 			wc := pr.CallsIn(g.Node(wv), write, false)
 			okr := len(wc) == 1 && len(wc[0].Args) == 2 && respVar != nil && pr.ObjOf(wc[0].Args[1]) == respVar
 			c.Check(okr, "processResult:writes-the-built-response", pr, g.Node(wv), "the message written is the value built by NewResponse(req.ID, …)")
+			// the response is written under a context that cannot be cancelled: req.ctx ends when the peer cancels the call
+			// (or the handler finishes), and the transports' Write refuse a done context — the response would be dropped
+			// and, in a batch, the whole batch reply withheld
+			okCtx := false
+			if len(wc) == 1 && len(wc[0].Args) == 2 {
+				switch a0 := ast.Unparen(wc[0].Args[0]).(type) {
+				case *ast.CompositeLit:
+					okCtx = isNamedType(pr.TypeOf(a0), modPath+"/"+pJ, "notDone")
+				case *ast.CallExpr:
+					// the standard-library spelling of the same thing
+					if fn := pr.Callee(a0); fn != nil && fn.Pkg() != nil && fn.Pkg().Path() == "context" && fn.Name() == "WithoutCancel" {
+						okCtx = true
+					}
+				}
+			}
+			c.Check(okCtx, "processResult:response-write-not-cancellable", pr, g.Node(wv), "the response is written under notDone{…}, never under the request's own (cancellable) context")
 		}
 		for _, wv := range wvs {
 			c.Check(hasAtom(g.GuardsAt(wv), func(a Atom) bool {
